@@ -404,6 +404,54 @@ pub fn run(ctx: &Ctx) -> i32 {
             col.fail(f);
         }
     });
+    // text pairs (minimal, parenthesised) for forms the reference tree type has no node for, and long flat chains whose
+    // fully parenthesised form has hundreds of groups (no grouping may depend on how many groups came before)
+    {
+        let mut pairs: Vec<(String, String)> = vec![
+            ("x IS y - 1".into(), "x IS (y - 1)".into()),
+            ("x IS NOT y * 2".into(), "x IS NOT (y * 2)".into()),
+            ("x IS s::int".into(), "x IS (s::int)".into()),
+            ("x IS NOT a[1]".into(), "x IS NOT (a[1])".into()),
+            ("x + 1 IS y".into(), "(x + 1) IS y".into()),
+            ("x IS y AND p".into(), "(x IS y) AND p".into()),
+            ("NOT x IS y".into(), "NOT (x IS y)".into()),
+            ("x IS - y".into(), "x IS (- y)".into()),
+            ("x = y IS z".into(), "(x = y) IS z".into()),
+        ];
+        for n in [70usize, 300, 1000] {
+            let min: Vec<String> = (0..n).map(|i| format!("x = {} AND y = {}", i, i + 1)).collect();
+            let full: Vec<String> = (0..n).map(|i| format!("((x = {}) AND (y = {}))", i, i + 1)).collect();
+            pairs.push((min.join(" OR "), full.join(" OR ")));
+            let vals: Vec<String> = (0..n).map(|i| format!("{}", i)).collect();
+            let pvals: Vec<String> = (0..n).map(|i| format!("({})", i)).collect();
+            pairs.push((format!("x IN ({})", vals.join(", ")), format!("x IN ({})", pvals.join(", "))));
+            pairs.push(((0..n).map(|i| format!("x * {}", i)).collect::<Vec<_>>().join(" + "), (0..n).map(|i| format!("(x * {})", i)).collect::<Vec<_>>().join(" + ")));
+        }
+        let mut np = 0u64;
+        for (min_e, full_e) in &pairs {
+            for ctxt in ["SELECT {} FROM t", "SELECT m FROM t WHERE {}"] {
+                let (a, bq) = (ctxt.replace("{}", min_e), ctxt.replace("{}", full_e));
+                np += 1;
+                col.eval(2);
+                col.nontrivial(h64(&("pair", &a)));
+                let pa = catch(|| sqlgrep::parsing::parse(&a).map(|s| format!("{:?}", s)).map_err(|e| format!("{}", e)));
+                let pb = catch(|| sqlgrep::parsing::parse(&bq).map(|s| format!("{:?}", s)).map_err(|e| format!("{}", e)));
+                let same = matches!((&pa, &pb), (Ok(Ok(x)), Ok(Ok(y))) if x == y);
+                if !same {
+                    let short = |t: &str| t.chars().take(120).collect::<String>();
+                    col.fail(fail(
+                        format!("text-pair:{}", if min_e.len() > 200 { "long-chain" } else { min_e.as_str() }),
+                        format!("{:?} and its parenthesised form {:?} do not lower to the same statement ({} / {})", short(&a), short(&bq), match &pa { Ok(Ok(_)) => "parses".to_string(), Ok(Err(e)) => format!("rejected: {}", e), Err(p) => format!("panic: {}", p.msg) }, match &pb { Ok(Ok(_)) => "parses".to_string(), Ok(Err(e)) => format!("rejected: {}", e), Err(p) => format!("panic: {}", p.msg) }),
+                        json!({"layer": "text-pair", "minimal": short(&a), "parenthesised": short(&bq), "length": a.len()}),
+                        json!("the same statement"),
+                        json!("differs"),
+                        a.len() as u64,
+                    ));
+                }
+            }
+        }
+        col.layer("text pairs (IS with an expression operand; long flat chains fully parenthesised)", np, true, json!({"pairs": pairs.len(), "chain_terms": [70, 300, 1000]}));
+    }
     col.layer("expression trees", done, complete, json!({"trees": total, "three_operator_trees": ctx.tier == Tier::Thorough}));
     finish(
         ctx,
@@ -419,6 +467,10 @@ pub fn run(ctx: &Ctx) -> i32 {
 }
 
 pub fn replay(case: &J) -> Vec<Failure> {
+    if case["layer"].as_str() == Some("text-pair") {
+        println!("note: text-pair cases are replayed by re-running `./check C13 quick`");
+        return vec![];
+    }
     let tables = sut::make_tables(DEF).unwrap();
     let min = case["minimal"].as_str().unwrap_or("");
     for (e, typed) in trees(true) {
